@@ -240,6 +240,10 @@ class ConcEnv:
         self.checked += 1
         a = float(a)
         b = float(b)
+        if not (np.isfinite(a) and np.isfinite(b)):
+            if not (a == b):  # nan or mismatching infinities: a failure, never within tolerance
+                self.failed.append((label, a, b))
+            return
         tol = self.rtol * max(abs(a), abs(b), 1e-300)
         if slack is not None:
             tol = max(tol, 2 * float(slack) * abs(float(scale)))
@@ -288,6 +292,7 @@ def run_unit_symbolic(unit):
                solver_s=0.0, samples=[], error=None, stretch=unit.stretch, notes=[],
                distinct=0)
     seen_ob = set()
+    nopc = {}   # (ids of the two terms) -> terms, for obligations already proved WITHOUT the path condition
     try:
         if unit.setup:
             unit.setup()
@@ -384,7 +389,20 @@ def run_unit_symbolic(unit):
                         v = S.prove(claim, pre, pc, denoms, unit.query_timeout_ms)
                         terms = [claim]
                     else:
-                        v = S.prove_eq(a, b, pre, pc, denoms, unit.query_timeout_ms)
+                        ck = (a.t.get_id(), b.t.get_id()) if (a.c is None or b.c is None) else None
+                        if ck is not None and ck in nopc and not ob.extra_pre:
+                            v = S.Verdict('unsat', None, 0.0, 'syntactic')  # proved on an earlier path under pre alone
+                        else:
+                            v = None
+                            if len(pc) > 0 and res['paths'] > 1 and ck is not None and not ob.extra_pre:
+                                v0 = S.prove_eq(a, b, pre, [], denoms, min(unit.query_timeout_ms, 10000))
+                                if v0.status == 'unsat':
+                                    nopc[ck] = (a.t, b.t)
+                                    v = v0
+                                else:
+                                    res['solver_s'] += v0.seconds
+                            if v is None:
+                                v = S.prove_eq(a, b, pre, pc, denoms, unit.query_timeout_ms)
                         terms = [a.t, b.t]
                 else:
                     c = ob.a
@@ -546,7 +564,9 @@ def finish(prop, mod, tier, seed, units, results, wall):
         for uk in r['unknown']:
             (stretch_inconclusive if r['stretch'] else inconclusive).append(
                 '%s: %s: solver unknown (%s)' % (r['unit'], uk['label'], uk['reason']))
-        for cex in r['cex']:
+        for ci, cex in enumerate(r['cex']):
+            if ci >= 2 or len(violations) + len(known_hits) >= 12:
+                continue  # replay at most two counterexamples per unit / a dozen per run (they are sequential)
             cex['tier'] = tier
             cex['seed'] = seed
             cex['property'] = prop
